@@ -133,11 +133,16 @@ def parseOp (n : Names) : Nat → List String → Option (Op × List String)
       some (.raise (" ".intercalate ws), rest.dropWhile (· != ")"))
     | "craise" :: rest =>
       let ws := rest.takeWhile (· != ")")
-      some (.craise (" ".intercalate ws), rest.dropWhile (· != ")"))
+      -- (`<>` stands for the `()` of an efun name in a message: parentheses delimit ops)
+      some (.craise ((" ".intercalate ws).replace "<>" "()"), rest.dropWhile (· != ")"))
     | "throw" :: t :: rest => some (.throw_ t, rest)
     | "limit" :: rest => some (.raiseLimit, rest)
     | "load" :: rest => body rest .load
     | "dhook" :: o :: rest => body rest (.dhook (n.valOf o))
+    | "spread" :: k :: rest => match k.toNat? with
+      | some k => some (.spread k, rest)
+      | none => none
+    | "consume" :: rest => some (.consume, rest)
     | "verb" :: _v :: rest => body rest (.verb 1)
     | "vital" :: w :: rest => body rest (.vital (w == "master"))
     | "heartbeat" :: o :: c :: rest => body rest (.heartBeat (n.valOf o) (n.valOf c))
@@ -183,7 +188,7 @@ def snapshot (n : Names) (m : M) : String :=
   -- safe_call_function_pointer, so no longjmp passes it (tie: `Gen.C05.cgStackUsersCallBackSafely`)
   s!"ld={m.loadDepth} rd={n.nameOf m.restrictDestruct} cgs=0 qv={if m.lastVerb == 0 then "0" else "set"} " ++
   -- names of the two vital objects (0 = the empty string; the values are opaque: only "as at start-up" or not)
-  s!"mn={if m.masterName == 1 then "ok" else if m.masterName == 0 then "blank" else "other"} " ++
+  s!"nva={m.numVarargs} mn={if m.masterName == 1 then "ok" else if m.masterName == 0 then "blank" else "other"} " ++
   s!"sn={if m.simulName == 2 then "ok" else if m.simulName == 0 then "blank" else "other"}"
 
 /-- the fixed probe evaluation (harness/mudlib/c05/probe.c): its output depends on command_giver and on the
@@ -194,7 +199,7 @@ def probeText (n : Names) (baseCg : Val) (m : M) (hbObj : Option Val := none) : 
   let hb : String := match hbObj with
     | some t => if m.hbOff.contains t then "0" else "1"
     | none => "0"
-  s!"caught *probe-err ; probe tp={n.nameOf baseCg} po=0 d=0 l=0 a=3,4 e=*probe-err  co=42 side in={inp} hb={hb}"
+  s!"caught *probe-err ; probe lit=2 lc=3 ve=5 tp={n.nameOf baseCg} po=0 d=0 l=0 a=3,4 e=*probe-err  co=42 side in={inp} hb={hb}"
 
 def joinSemi (xs : List String) : String := " ; ".intercalate xs
 
